@@ -88,14 +88,15 @@ class Run:
         ev = {"property_id": self.prop, "tier": self.tier, "seed": seed(), "level": self.level,
               "coverage": self.cov, "assumptions": self.assumptions, "wall_s": round(wall, 2),
               "violations": len(unknown)}
-        os.makedirs(os.path.join(VERIF, "evidence"), exist_ok=True)
-        with open(os.path.join(VERIF, "evidence", self.prop + ".json"), "w") as f:
+        edir = os.environ.get("VERIF_EVIDENCE_DIR") or os.path.join(VERIF, "evidence")      # (the override is for tools/sweep_seeded.sh only)
+        os.makedirs(edir, exist_ok=True)
+        with open(os.path.join(edir, self.prop + ".json"), "w") as f:
             json.dump(ev, f, indent=1, default=str)
         for s, ws in sorted(knownhit.items()):
             print("KNOWN-FINDING: property=%s %s (%d records)" % (self.prop, s, len(ws)))
         rc = 0
         if unknown:
-            rdir = os.path.join(VERIF, "replays", self.prop)
+            rdir = os.path.join(os.environ.get("VERIF_REPLAY_DIR") or os.path.join(VERIF, "replays"), self.prop)
             os.makedirs(rdir, exist_ok=True)
             for s, ws in sorted(unknown.items()):
                 h = hashlib.sha1(s.encode()).hexdigest()[:10]
